@@ -4,7 +4,7 @@ alternatives, synonym folding inside Intel classes, operand order, width keyword
 Not decided: comment stripping regex and white-space handling (run-time lexer behaviour)."""
 import re
 from asm import GramEval
-from astev import Str, Num, Top, tmpl_str, hinfo, Res
+from astev import Opt, Str, Num, Top, tmpl_str, hinfo, Res
 from rules_c06 import INTEL, intel_table
 
 EXPL = (
@@ -178,7 +178,7 @@ def run(ctx, chk):
     # ---- R7: string-valued helper nonterminals (memory_addr, labels, ...) must not drop a component
     for nt_data in GA.g["nonterminals"]:
         nt = nt_data["name"]
-        if nt.startswith("__") or (nt_data.get("type") or "") != "String" or nt.startswith("quote_"):
+        if nt.startswith("__") or (nt_data.get("type") or "").replace(" ", "") not in ("String", "Option<String>") or nt.startswith("quote_"):
             continue
         for k, p in enumerate(nt_data["productions"]):
             syms = p["symbols"]
@@ -192,6 +192,11 @@ def run(ctx, chk):
                     if sy["name"].startswith("quote_") or sy["name"] in ("@L", "@R"):
                         continue
                     v = E.nt_value(sy["name"])
+                    if isinstance(v, Opt) and isinstance(v.some, Str):
+                        # an optional component (segment override): checked for the case that it is present
+                        override[i] = Opt(Str.lit(f"\x01{i}\x02"), False)
+                        comps.append(i)
+                        continue
                     if not isinstance(v, (Str, Num)):
                         continue
                 else:
@@ -211,6 +216,14 @@ def run(ctx, chk):
                 rv = q.ret
                 if isinstance(rv, Res):
                     rv = rv.ok
+                if isinstance(rv, Opt):
+                    if rv.some is None:
+                        verdicts.add("drop")
+                        chk.violation("C11.R7", label, "component-dropped:" + ",".join(syms[i]["name"] for i in comps),
+                                      f"{label}: on a path ({'; '.join(f'{c[0]}={c[1]}' for c in q.conds)[:160] or 'unconditional'}) the value handed on is None although the source "
+                                      f"operand has this component: the emitted operand loses it", where)
+                        continue
+                    rv = rv.some
                 if not isinstance(rv, Str):
                     verdicts.add("?")
                     continue
